@@ -404,3 +404,19 @@ def add_roots_constraint(rng, case):
     case["constraints"].append({"grid": "integrator_roots", "include_first": True, "include_last": True,
                                 "rels": [{"rel": "le", "lhs": signal_expr(rng, case, kinds, 2),
                                           "rhs": C(dyadic(rng, -2, 2, 1))}]})
+
+
+def touch_objective(case):
+    """an objective in which every decision variable of the transcription occurs (opti.x then lists all)"""
+    terms = []
+    sq = lambda e: ["*", e, e]
+    for s_ in sym_list(case, ["x", "pp", "vp"]):
+        terms.append(["sump", sq(s_)])
+    for s_ in sym_list(case, ["u", "vc"]):
+        terms.append(["sum", sq(s_)])
+    for s_ in sym_list(case, ["v"]):
+        terms.append(sq(["g", "v", s_[2]]))
+    if case.get("algebraics"):
+        for s_ in sym_list(case, ["z"]):
+            terms.append(["sum", sq(s_)])
+    case["objective"] = case.get("objective", []) + terms
